@@ -278,12 +278,54 @@ theorem short_header_is_eof (r : Reader) (v : Validator) (h : r.file.length < 12
 
 /-! ### Wrong password -/
 
-/-- **A wrong password never ends in a completed read of other bytes** — in the precise,
-non-probabilistic form: whatever password is supplied, reading a Stored entry never panics, and if
-it completes, the bytes returned have the CRC-32 declared for the entry.  The 1-byte header check can
-be passed by chance (1/256); the CRC layer (C04, modelled here by `crcCheckedRead`) is what refuses the
-rest.  A *different* completed plaintext would have to be a CRC-32 collision with the declared value. -/
-theorem wrong_password_never_completes_other (pw : Option Bytes) (enc dd : Bool) (crc : UInt32)
+/-- The wrong-password clause of the property **as written** ("a different password is either rejected
+up front or ends in a read error, never a completed read of other bytes"), over the model: for an
+entry the writer produced from `data` under `pw`, reading it under any other password never completes
+with bytes other than `data`. -/
+def WrongPasswordClause : Prop :=
+  ∀ (pw wrong data stored d : Bytes), wrong ≠ pw →
+    writeEntry pw [data] (Crc32.crc32 data) = .ok stored →
+    readStoredEntry (some wrong) true false (Crc32.crc32 data) 0 stored = .ok (some d) → d = data
+
+/-- **The literal clause is FALSE (format-inherent; known finding K-H zipcrypto-crc-collision).**
+ZipCrypto has no authentication besides the 1-byte header check and the CRC-32 of the plaintext: a
+wrong password that passes the check byte (1 in 256) and whose decryption happens to have the declared
+CRC-32 (1 in 2^32) completes with other bytes.  Kernel-checked witness (replayed on the crate by
+`corpus/zc.ops`): password "correct horse", content 93 ce 56 00 00 08 42 1c (CRC-32 0x5a854337); the
+password "wrong-205" passes the check and decrypts the entry to 3d f7 5f b8 de 38 34 8e, whose CRC-32 is
+0x5a854337 as well. No repair exists inside the format; what holds instead is
+`wrong_password_never_completes_other_partial`. -/
+theorem wrong_password_clause_false : ¬ WrongPasswordClause := by
+  intro h
+  have w : ∃ stored,
+      writeEntry [0x63, 0x6f, 0x72, 0x72, 0x65, 0x63, 0x74, 0x20, 0x68, 0x6f, 0x72, 0x73, 0x65]
+        [[0x93, 0xce, 0x56, 0x00, 0x00, 0x08, 0x42, 0x1c]]
+        (Crc32.crc32 [0x93, 0xce, 0x56, 0x00, 0x00, 0x08, 0x42, 0x1c]) = .ok stored ∧
+      readStoredEntry (some [0x77, 0x72, 0x6f, 0x6e, 0x67, 0x2d, 0x32, 0x30, 0x35]) true false
+        (Crc32.crc32 [0x93, 0xce, 0x56, 0x00, 0x00, 0x08, 0x42, 0x1c]) 0 stored =
+        .ok (some [0x3d, 0xf7, 0x5f, 0xb8, 0xde, 0x38, 0x34, 0x8e]) :=
+    ⟨[0x72, 0xd0, 0x0c, 0xfd, 0x00, 0xff, 0xba, 0x04, 0x6f, 0x88, 0x33, 0xee, 0x6a, 0x59, 0x8e, 0xc9,
+      0xa2, 0xa4, 0xc8, 0x60], by decide +kernel⟩
+  obtain ⟨stored, hw, hr⟩ := w
+  have := h _ _ _ _ _ (by decide) hw hr
+  exact absurd this (by decide)
+
+/-- The witness spelled out: both byte strings have the declared CRC-32. -/
+example : Crc32.crc32 [0x93, 0xce, 0x56, 0x00, 0x00, 0x08, 0x42, 0x1c] = 0x5a854337 ∧
+    Crc32.crc32 [0x3d, 0xf7, 0x5f, 0xb8, 0xde, 0x38, 0x34, 0x8e] = 0x5a854337 := by decide +kernel
+
+/-- **What holds instead of the wrong-password clause** (`_partial`: weaker than the property's wording,
+which `wrong_password_clause_false` refutes): whatever password is supplied — right, wrong or none —
+reading a Stored entry never panics (`open_never_panics`), a password whose decrypted 12th header
+byte differs from the validator's byte is rejected up front (`check_byte_all`: exactly one of the 256
+byte values passes, i.e. the check byte admits 1/256 of wrong passwords), and **a read that completes
+returns bytes whose CRC-32 is the declared one**.  The CRC layer (C04, modelled here by
+`crcCheckedRead`) is what refuses the rest.  A *different* completed plaintext is therefore exactly a
+CRC-32 collision with the declared value under a password passing the check byte: about 2^-40 per
+random (password, wrong password) pair, so not reachable by random testing but constructible.
+
+Full statement (false, kept visible): `WrongPasswordClause`. -/
+theorem wrong_password_never_completes_other_partial (pw : Option Bytes) (enc dd : Bool) (crc : UInt32)
     (t : UInt16) (raw d : Bytes)
     (h : readStoredEntry pw enc dd crc t raw = .ok (some d)) : Crc32.crc32 d = crc := by
   have key : ∀ x : Bytes, (some <$> crcCheckedRead crc x : Out (Option Bytes)) = .ok (some d) →
